@@ -12,6 +12,7 @@ checked by the verified `checkFarkas`, verdicts compared with Z3 (LRA/LIA).  (5)
 and `SimplexHOLWrapper` proof terms: accepted by `theory.check_proof`, conclude `false`,
 hypotheses among the given constraints.
 """
+import ast
 import itertools
 import json
 import math
@@ -20,11 +21,158 @@ from fractions import Fraction
 
 from harness.common import sexp
 from harness.common.ctx import Timeout, time_limit
-from harness.props import c16_translate
 
 EXE = "c16_model"
 FUEL = 12
 BOX = 6
+
+
+
+# ------------------------------------------------------------------ translator (omega.combine_*_factoid -> Gen.lean)
+# Tiny Python-AST -> Lean translator for the two pure shadow-combination functions of
+# prover/omega.py (`combine_real_factoid`, `combine_dark_factoid`).  It never imports the code it
+# translates.  Anything outside the subset raises Untranslatable (the check then reports the
+# obligation as no longer checked; it never guesses).
+#
+# Subset: parameters (first: int, others: tuples of ints); statements `assert e[, msg]`,
+# `x = e`, `x, y = e1, e2`, `x[k] = e`, `return Factoid(e)`; expressions over ints (+ - * unary -,
+# `int(a / b)`, `gcd(a, b)`, `len(l)`, `l[e]`, comparisons, `and`), and one list form
+# `[e for m, n in zip(l1, l2)]`.
+class Untranslatable(Exception):
+    pass
+
+
+FUNCS = ["combine_real_factoid", "combine_dark_factoid"]
+
+
+class Tr:
+    def __init__(self, params):
+        self.lists = set(params[1:])
+        self.ints = {params[0]}
+
+    # ---- expressions of type Int
+    def int_expr(self, e):
+        if isinstance(e, ast.Constant) and isinstance(e.value, int) and not isinstance(e.value, bool):
+            return "(%d : Int)" % e.value
+        if isinstance(e, ast.Name):
+            if e.id in self.ints:
+                return e.id
+            raise Untranslatable("name %s is not a known int" % e.id)
+        if isinstance(e, ast.UnaryOp) and isinstance(e.op, ast.USub):
+            return "(-%s)" % self.int_expr(e.operand)
+        if isinstance(e, ast.BinOp) and isinstance(e.op, (ast.Add, ast.Sub, ast.Mult)):
+            op = {ast.Add: "+", ast.Sub: "-", ast.Mult: "*"}[type(e.op)]
+            return "(%s %s %s)" % (self.int_expr(e.left), op, self.int_expr(e.right))
+        if isinstance(e, ast.Subscript):
+            return "(Py.idx %s %s)" % (self.list_expr(e.value), self.int_expr(e.slice))
+        if isinstance(e, ast.Call) and isinstance(e.func, ast.Name) and not e.keywords:
+            f = e.func.id
+            if f == "gcd" and len(e.args) == 2:
+                return "(Py.gcd %s %s)" % (self.int_expr(e.args[0]), self.int_expr(e.args[1]))
+            if f == "len" and len(e.args) == 1:
+                return "(Py.len %s)" % self.list_expr(e.args[0])
+            if f == "int" and len(e.args) == 1 and isinstance(e.args[0], ast.BinOp) and isinstance(e.args[0].op, ast.Div):
+                d = e.args[0]
+                return "(Py.intDiv %s %s)" % (self.int_expr(d.left), self.int_expr(d.right))
+        raise Untranslatable("int expression " + ast.dump(e)[:80])
+
+    def list_expr(self, e):
+        if isinstance(e, ast.Name) and e.id in self.lists:
+            return e.id
+        if isinstance(e, ast.ListComp) and len(e.generators) == 1:
+            g = e.generators[0]
+            if (not g.ifs and not g.is_async and isinstance(g.target, ast.Tuple) and len(g.target.elts) == 2
+                    and all(isinstance(t, ast.Name) for t in g.target.elts)
+                    and isinstance(g.iter, ast.Call) and isinstance(g.iter.func, ast.Name) and g.iter.func.id == "zip"
+                    and len(g.iter.args) == 2 and not g.iter.keywords):
+                a, b = (t.id for t in g.target.elts)
+                if a in self.lists or b in self.lists or a == b:
+                    raise Untranslatable("comprehension variable shadows a list")
+                saved = set(self.ints)
+                self.ints |= {a, b}
+                body = self.int_expr(e.elt)
+                self.ints = saved
+                return "(List.zipWith (fun %s %s => %s) %s %s)" % (a, b, body, self.list_expr(g.iter.args[0]), self.list_expr(g.iter.args[1]))
+        raise Untranslatable("list expression " + ast.dump(e)[:80])
+
+    def bool_expr(self, e):
+        if isinstance(e, ast.BoolOp) and isinstance(e.op, ast.And):
+            return "(" + " && ".join(self.bool_expr(v) for v in e.values) + ")"
+        if isinstance(e, ast.Compare) and len(e.ops) == 1:
+            ops = {ast.Lt: "<", ast.Gt: ">", ast.LtE: "≤", ast.GtE: "≥", ast.Eq: "=", ast.NotEq: "≠"}
+            if type(e.ops[0]) in ops:
+                return "decide (%s %s %s)" % (self.int_expr(e.left), ops[type(e.ops[0])], self.int_expr(e.comparators[0]))
+        raise Untranslatable("condition " + ast.dump(e)[:80])
+
+    # ---- statements
+    def assign(self, name, value, out):
+        try:
+            rhs = self.int_expr(value)
+            kind = "int"
+        except Untranslatable:
+            rhs = self.list_expr(value)
+            kind = "list"
+        out.append("  let %s := %s" % (name, rhs))
+        (self.ints if kind == "int" else self.lists).add(name)
+        (self.lists if kind == "int" else self.ints).discard(name)
+
+    def stmts(self, body):
+        out = []
+        for k, st in enumerate(body):
+            if isinstance(st, ast.Expr) and isinstance(st.value, ast.Constant) and isinstance(st.value.value, str):
+                continue  # docstring
+            if isinstance(st, ast.Assert):
+                out.append("  if !%s then none else" % self.bool_expr(st.test))
+            elif isinstance(st, ast.Assign) and len(st.targets) == 1:
+                t = st.targets[0]
+                if isinstance(t, ast.Name):
+                    self.assign(t.id, st.value, out)
+                elif isinstance(t, ast.Tuple) and isinstance(st.value, ast.Tuple) and len(t.elts) == len(st.value.elts) \
+                        and all(isinstance(x, ast.Name) for x in t.elts):
+                    names = [x.id for x in t.elts]
+                    used = {n.id for v in st.value.elts for n in ast.walk(v) if isinstance(n, ast.Name)}
+                    if used & set(names):
+                        raise Untranslatable("simultaneous assignment reads its own targets")
+                    for n, v in zip(names, st.value.elts):
+                        self.assign(n, v, out)
+                elif isinstance(t, ast.Subscript) and isinstance(t.value, ast.Name) and t.value.id in self.lists:
+                    out.append("  let %s := Py.setIdx %s %s %s" % (t.value.id, t.value.id, self.int_expr(t.slice), self.int_expr(st.value)))
+                else:
+                    raise Untranslatable("assignment target " + ast.dump(t)[:80])
+            elif isinstance(st, ast.Return):
+                v = st.value
+                if not (isinstance(v, ast.Call) and isinstance(v.func, ast.Name) and v.func.id == "Factoid" and len(v.args) == 1 and not v.keywords):
+                    raise Untranslatable("return value " + ast.dump(v)[:80])
+                if k != len(body) - 1:
+                    raise Untranslatable("return is not the last statement")
+                out.append("  Py.factoid %s" % self.list_expr(v.args[0]))
+                return out
+            else:
+                raise Untranslatable("statement " + ast.dump(st)[:80])
+        raise Untranslatable("function does not end in return")
+
+
+def translate_combine(repo):
+    with open(os.path.join(repo, "prover", "omega.py"), encoding="utf-8") as f:
+        tree = ast.parse(f.read())
+    found = {n.name: n for n in tree.body if isinstance(n, ast.FunctionDef) and n.name in FUNCS}
+    lines = ["/- GENERATED by harness/props/c16.py (translate_combine) from prover/omega.py; do not edit. -/",
+             "import Holpy.C16.Py", "namespace Holpy.C16.Gen", "open Holpy.C16", ""]
+    for name in FUNCS:
+        if name not in found:
+            raise Untranslatable("function %s not found" % name)
+        fn = found[name]
+        a = fn.args
+        if a.vararg or a.kwarg or a.kwonlyargs or a.defaults or a.posonlyargs or len(a.args) != 3:
+            raise Untranslatable("signature of %s" % name)
+        params = [x.arg for x in a.args]
+        tr = Tr(params)
+        body = tr.stmts(fn.body)
+        lines.append("def %s (%s : Int) (%s %s : List Int) : Option (List Int) :=" % (name, params[0], params[1], params[2]))
+        lines += body
+        lines.append("")
+    lines.append("end Holpy.C16.Gen")
+    return "\n".join(lines) + "\n"
 
 
 # ------------------------------------------------------------------ generators
@@ -164,6 +312,44 @@ def z3_sat(rows, integer=True, strict=None):
         s.add(e > 0 if (strict and strict[k]) else e >= 0)
     res = s.check()
     return True if res == z3.sat else False if res == z3.unsat else None
+
+
+def replay_deriv(rows, d):
+    """Independent replay of an omega derivation with the textbook rules (not the code under test):
+    returns the derived row or None.  rc: the positive combination of a lower and an upper bound on
+    x_i that cancels x_i, divided by the gcd of the two multipliers; gcd: division by the gcd of the
+    variable coefficients, constant rounded down; dc: sum of the two rows."""
+    tag = d[0]
+    if tag == "asm":
+        return list(d[1]) if list(d[1]) in [list(r) for r in rows] else None
+    if tag == "rc":
+        i, f1, f2 = d[1], replay_deriv(rows, d[2]), replay_deriv(rows, d[3])
+        if f1 is None or f2 is None or len(f1) != len(f2) or not (0 <= i < len(f1) - 1) or not (f1[i] > 0 > f2[i]):
+            return None
+        g = math.gcd(f1[i], -f2[i])
+        return [(-f2[i] // g) * m + (f1[i] // g) * n for m, n in zip(f1, f2)]
+    if tag == "gcd":
+        f = replay_deriv(rows, d[1])
+        if f is None:
+            return None
+        g = 0
+        for c in f[:-1]:
+            g = math.gcd(g, c)
+        if g <= 1:
+            return None
+        if any(c % g for c in f[:-1]):
+            return None
+        return [c // g for c in f[:-1]] + [f[-1] // g]       # // is floor division
+    if tag == "dc":
+        f1, f2 = replay_deriv(rows, d[1]), replay_deriv(rows, d[2])
+        if f1 is None or f2 is None or len(f1) != len(f2):
+            return None
+        return [a + b for a, b in zip(f1, f2)]
+    return None
+
+
+def is_false_row(f):
+    return f is not None and len(f) >= 1 and not any(f[:-1]) and f[-1] < 0
 
 
 _reported = {}
@@ -316,9 +502,9 @@ def check_omega(ctx, omega, systems, label, use_z3=True, limit=20):
                 report(ctx, "omega:wrong-contradiction", key,
                               "solve_matrix(%s) = UNSAT but %s is an integer solution" % (rows, list(pt) if pt is not None else "Z3 finds one"),
                               {"kind": "omega", "rows": rows, "result": res, "solution": list(pt) if pt is not None else None})
-            elif dv is False:
+            elif dv is False or not is_false_row(replay_deriv(rows, res[1])):
                 report(ctx, "omega:bad-derivation", key,
-                              "solve_matrix(%s) = UNSAT with a derivation the verified checker rejects: %s" % (rows, sexp.dumps(res[1])),
+                              "solve_matrix(%s) = UNSAT with a derivation that %s: %s" % (rows, "the verified checker rejects" if dv is False else "does not replay to 0 <= negative", sexp.dumps(res[1])),
                               {"kind": "omega", "rows": rows, "result": res})
             ctx.count("oracle:contradiction-checked")
             if z is not None:
@@ -750,7 +936,7 @@ def run(ctx):
         "thorough: every multiset of <=3 rows over 2 variables with entries in -2..2. Non-trivial = at least two rows with a variable; "
         "distinct by the row lists.")
     try:
-        gen = c16_translate.translate(ctx.repo)
+        gen = translate_combine(ctx.repo)
         if ctx.write_if_changed("Holpy/C16/Gen.lean", gen):
             ctx.log("Gen.lean regenerated (changed)")
     except Exception as e:  # noqa
@@ -830,8 +1016,35 @@ def replay(ctx, rp):
 
 
 MANIFEST = {
-    "text": "TODO",
-    "note": "TODO",
+    "text": "Lean theorems: (a) verified certificate checkers usable on any solver's answer - checkWitness_sound / checkWitnessQ_sound "
+            "(an accepted integer / rational assignment satisfies every row), checkFarkas_sound (accepted non-negative multipliers prove "
+            "that no rational solution exists), checkDeriv_sound (an accepted Omega derivation - assumptions, real-shadow combination as "
+            "translated from omega.py, gcd division with the constant rounded down, sum of two rows - proves that no integer solution "
+            "exists); (b) omega_contr_sound / omega_contr_no_solution about an executable model of solve_matrix/solve (all modes, redundant-"
+            "variable elimination, exact/dark elimination, one-variable analysis, back-substitution), for every matrix of rows of one width "
+            "and every fuel: a Contr answer carries a derivation the checker accepts, so the system has no integer solution. The model is "
+            "tied to prover/omega.py by regenerating combine_real_factoid/combine_dark_factoid from the source on every run and by "
+            "differential runs (verdict, witness dict, derivation tree) on generated systems. The SAT side of the Omega model "
+            "(dark-shadow lemma + back-substitution) is NOT proved: every SAT witness of the real code is judged at run time by the "
+            "verified checkWitness and an independent evaluation. The simplex algorithm (pivoting, branch and bound, strict variant) is not "
+            "modelled: its witnesses go through checkWitness(Q), its 'unsatisfiable' explanations are turned into Farkas multipliers and "
+            "go through checkFarkas, branch-and-bound / strict verdicts are compared with Z3 and brute force. OmegaHOL proof terms are "
+            "checked by theory.check_proof (conclusion false, hypotheses among the given constraints).",
+    "note": "Trusted: Lean kernel, propext/Classical.choice/Quot.sound; the Python-AST translator of the two combine functions; the harness "
+            "generators and encoders (rows -> GreaterEq/LessEq, explanation -> multipliers); Z3 and the box -6..6 as supporting oracles for "
+            "verdicts without certificate (branch and bound 'no integer solution', strict simplex 'unsatisfiable'); float divisions of "
+            "omega.py are modelled as exact integer divisions (agree below 2^53); CPython's hash of small-int tuples (bucket order of "
+            "the database) is modelled by hash(-1)=hash(-2) only; the 'direct contradiction' lookup in extend_cross_product compares "
+            "with the un-negated key and is unreachable under that hash model, so it is omitted from the model. Termination of "
+            "branch_and_bound is not part of the property (node budget, 'gave up' is no answer).",
     "design_ref": "DESIGN.md 4/C16",
 }
-FINDINGS = []
+FINDINGS = [
+    {"status": "fixed", "key": "omega:bad-witness:[[2,-1],[-2,1]]", "commit": "fixes/C16-1.patch",
+     "what": "solve_matrix([[2,-1],[-2,1]]) = SAT {0: 1}: input rows were not gcd-normalised although solve/one_var_analysis assume it; "
+             "also wrong UNSAT ([[-1,1],[2,-2],[1,-1]]), false constant rows ignored ([[1,0],[0,-1]] = SAT), TypeError on constant-only systems"},
+    {"status": "fixed", "key": "bb:wrong-unsat:[[-3,-3,4],[0,-2,3]]/gg", "commit": "fixes/C16-2.patch",
+     "what": "Simplex.add_ineq left the slack variable of a non-unit single-variable constraint without a value when the variable was "
+             "already known (KeyError in check); branch_and_bound swallows the error and reports 'no integer solution' for "
+             "-3x-3y+4>=0, -2y+3>=0"},
+]
